@@ -2,9 +2,9 @@ package main
 
 import (
 	"fmt"
-	"os"
 	"go/token"
 	"go/types"
+	"os"
 	"sort"
 	"strings"
 
@@ -113,6 +113,13 @@ func (vc *FuncVC) genOnce() {
 			if len(invs) > 0 {
 				vc.assume(fmt.Sprintf("(forall ((j!t Int)) (! %s :pattern (%s)))", And(invs...), el))
 			}
+		}
+	}
+	if vc.sweep && vc.sweepRecv && fn.Signature.Recv() != nil && len(args) > 0 {
+		// sweep mode: a method is entered with a non-nil pointer receiver (the
+		// implicit precondition of every method; listed as an assumption)
+		if _, isPtr := fn.Params[0].Type().Underlying().(*types.Pointer); isPtr {
+			vc.assume(Not(S("=", args[0], "0")))
 		}
 	}
 	for _, fv := range fn.FreeVars {
